@@ -22,6 +22,13 @@ PROPERTIES = ["C15"]
 ORDER = 55
 
 MIXED = [None, 0, False, '', (), 1, True, 'a', (0,), -1, 'b', 7]
+# members for ReplSet: additionally kinds whose type has NO total order -- tuples with differently typed components,
+# nested tuples, complex numbers (`<` raises TypeError), frozensets (`<` is the subset relation: {1,2} and {2,3} are
+# incomparable) -- so that a choice rule for pop() that compares the members themselves shows.  Kept OUT of the domain:
+# two distinct members with equal type name and equal repr (the recorded caveat of the D20 repair), frozensets whose
+# repr depends on their own layout (elements colliding mod 8), 1+0j / 1.0 (equal to 1 and True).
+SETITEMS = MIXED + [(1, 'a'), ('a', 1), (1, None), (1, 2), ((1,), 'x'), ((1,), 2), (None, (0, 'b')), 1j, 2j, (3+1j),
+                    frozenset(), frozenset([1]), frozenset([1, 2]), frozenset([2, 3]), frozenset([1, 2, 3])]
 ORDERABLE = [0, False, True, 1, -1, 7]
 ERRS = (IndexError, ValueError, KeyError, TypeError, AssertionError)
 CLASSES = bo.CLASSES
@@ -37,7 +44,11 @@ def lit(v):
 
 
 def unlit(r):
-    return set() if r == "set()" else ast.literal_eval(r)
+    """reprs written by this module only (literals, `set()`, `frozenset(...)`, complex)"""
+    try:
+        return ast.literal_eval(r)
+    except (ValueError, SyntaxError):
+        return eval(r, {"__builtins__": {}}, {"frozenset": frozenset, "set": set})
 
 
 def canon(v):
@@ -206,6 +217,9 @@ def call_builtin(cls, b, op, oracle=NO_ORACLE, tags=None):
             if name == "pop":
                 if len(set(type(y).__name__ for y in x)) > 1:
                     tag("set.pop:several-types")
+                for tn, label in (("tuple", "tuples"), ("complex", "complex-members"), ("frozenset", "frozensets")):
+                    if sum(1 for y in x if type(y).__name__ == tn) > 1:
+                        tag("set.pop:several-%s" % label)
                 if oracle is NO_ORACLE or isinstance(oracle, Err):
                     return x.pop()
                 if oracle not in x:
@@ -280,7 +294,7 @@ def gen_reset(rng, cls):
     elif cls == "dict":
         good = dict((k, rng.choice(MIXED)) for k in rng.sample(MIXED, rng.randrange(0, 4)))
     else:
-        good = set(rng.sample(MIXED, rng.randrange(0, 5)))
+        good = set(rng.sample(SETITEMS, rng.randrange(0, 6)))
     if rng.random() < 0.8:
         return good
     return rng.choice([None, 0, '', (), [], {}, set()])
@@ -330,16 +344,17 @@ def gen_op(rng, cls, size):
             return ["__len__"]
         return [n]
     if cls == "set":
+        sv = lambda: rng.choice(SETITEMS)
         n = rng.choice(["add", "add", "add", "remove", "discard", "pop", "pop", "update", "rawData", "__len__", "__contains__",
                         "__contains__", "reset", "clear"])
         if n in ("add", "remove", "discard", "__contains__"):
-            return [n, lit(v())]
+            return [n, lit(sv())]
         if n == "update":
-            return [n, lit([v() for _ in range(rng.randrange(0, 4))])]
+            return [n, lit([sv() for _ in range(rng.randrange(0, 4))])]
         if n == "reset":
             return [n, lit(gen_reset(rng, cls))]
         if n == "clear" and r < 0.8:
-            return ["add", lit(v())]
+            return ["add", lit(sv())]
         return [n]
     n = rng.choice(["put", "put", "put", "get", "get", "full", "empty", "qsize", "__len__"])
     if n == "put":
@@ -387,6 +402,12 @@ def systematic(cls):
         out.append((None, [["add", L(False)], ["add", L(0)], ["rawData"], ["discard", L(0)], ["rawData"], ["remove", L(None)], ["add", L(None)],
                            ["remove", L(None)], ["discard", L(None)], ["update", L([None, 0, ''])], ["remove", L(False)], ["rawData"],
                            ["reset", L({None, 0})], ["pop"], ["pop"], ["pop"], ["reset", L(None)], ["reset", L(())]]))
+        for members in ([(1, 'a'), ('a', 1)], [(1, None), (1, 2)], [((1,), 'x'), ((1,), 2), (None, (0, 'b'))], [1j, 2j, (3+1j)],
+                        [frozenset([1, 2]), frozenset([2, 3]), frozenset([1])], [frozenset([2, 3]), frozenset([1, 2]), frozenset()],
+                        SETITEMS[len(MIXED):]):
+            out.append((None, [["add", L(x)] for x in members] + [["rawData"], ["snapshot"], ["pop"], ["rawData"], ["snapshot"]]
+                        + [["pop"]] * len(members) + [["__len__"]]))
+            out.append((None, [["reset", L(set(members))], ["pop"], ["add", L(members[0])], ["snapshot"], ["pop"], ["pop"], ["rawData"]]))
     if cls in ("queue", "pq"):
         items = [None, 0, False, ''] if cls == "queue" else [0, False, True, -1]
         for m in (None, 0, 2):
@@ -436,7 +457,11 @@ def first_diff(a, b):
 def drain(obj):
     out = []
     while len(obj):
-        out.append(repr(obj.pop(_doApply=True)))
+        try:
+            out.append(repr(obj.pop(_doApply=True)))
+        except ERRS as e:                       # pop on a non-empty set must not raise; reported by the caller
+            out.append("raises " + type(e).__name__)
+            break
     return out
 
 
@@ -495,7 +520,11 @@ def monitor_case(B, cls, maxsize, ops, tags=None):
         c = list(plain["obj"].rawData())
         if c:
             var = pop_order_variants(B, c)
-            if len(set(json.dumps(v) for v in var.values())) > 1:
+            raised = [x for v in var.values() for x in v if x.startswith("raises ")]
+            if raised:
+                viols.append(mk("batteries.ReplSet.pop:differs-from-builtin:%s" % raised[0].split()[1],
+                                "pop() on a non-empty ReplSet holding %r %s (set.pop() returns a member): %r" % (c, raised[0], var), len(ops)))
+            elif len(set(json.dumps(v) for v in var.values())) > 1:
                 viols.append(mk("batteries.ReplSet.pop:layout-dependent",
                                 "ReplSets holding the same elements %r, built in different ways, are drained by pop() in different "
                                 "orders: %r" % (c, var), len(ops)))
@@ -525,7 +554,8 @@ FLOORS = [
     "list.append:None-item", "list.insert:None-item", "list.remove:None-item", "list.index:None-item", "list.count:None-item",
     "list.remove:0-equals-False", "list.index:0-equals-False", "list.count:0-equals-False",
     "set.add:None-item", "set.discard:None-item", "set.remove:None-item", "set.__contains__:None-item",
-    "set.add:0-equals-False", "set.__contains__:0-equals-False", "set.pop:several-types",
+    "set.add:0-equals-False", "set.__contains__:0-equals-False", "set.pop:several-types", "set.pop:several-tuples",
+    "set.pop:several-complex-members", "set.pop:several-frozensets",
     "queue.put:falsy-item", "pq.put:falsy-item", "queue.get:stored-None-returned", "queue.get:default-on-empty",
     "queue.get:None-on-empty", "pq.get:default-on-empty", "pq.get:None-on-empty",
 ]
